@@ -209,6 +209,7 @@ def generate(tier, rng):
     for i in IDS:
         for res in [ABSENT, None, 0, '', [], {}, False, 1, {'a': 1}]:
             for err in (None, _err_spec(E.JsonRpcError, 1, 'm'), _err_spec(E.MethodNotFoundError), _err_spec(U.UserErrorZero, data=None),
+                        _err_spec(E.InvalidRequestError), _err_spec(E.ParseError, data='x'), _err_spec(E.JsonRpcError, -32600, 'plain class, reserved code'),
                         _err_spec(E.JsonRpcError, 2002, '', {'d': 1})):
                 for ecls in (E.JsonRpcError, U.ClientBaseError):
                     yield _case('resp_build', resp=_resp_spec(i, res, err), reg=REG, cls=_cls_json(ecls))
